@@ -912,7 +912,14 @@ func (r *run) judgeC16(revName, kind string, rev map[string]any, sp Spec, p *Pkg
 		if parts[1] == r.rejectName && r.rejectName != "" && r.rejectOn && len(mine) > 0 && r.rejectSeq <= mine[0].Seq {
 			// an inactive revision writes only objects that exist (it never creates):
 			// a rejection of an absent object is never put to the test
-			if r.desiredStateRead(t.ID, revName) == "Active" || w.Store.StateAt(mine[0].Seq, simapi.ObjKey{Group: kindGroup[parts[0]], Kind: parts[0], Name: parts[1]}) != nil {
+			// (as this reconcile itself found it: its own read of the object)
+			existedForTask := w.Store.StateAt(mine[0].Seq, simapi.ObjKey{Group: kindGroup[parts[0]], Kind: parts[0], Name: parts[1]}) != nil
+			for _, e := range mine {
+				if e.Read && e.Verb == "get" && e.Key.Kind == parts[0] && e.Key.Name == parts[1] && e.Injected == "" {
+					existedForTask = e.After != nil
+				}
+			}
+			if r.desiredStateRead(t.ID, revName) == "Active" || existedForTask {
 				blocked = k + " is rejected by the API server"
 			}
 		}
